@@ -735,6 +735,47 @@ func insiderMutations() []mutation {
 	}
 }
 
+// byzantineMutations: more than a third of the validators the victim KNOWS (the harness holds the
+// honest keys) sign a frame that Hashgraph.Reset cannot insert. Outside C14 (the signers are known)
+// and outside the BFT assumption; it is the only way left to reach a Reset failure after the
+// checks once strangers are refused (finding F4: the node is left emptied).
+func byzantineMutations() []mutation {
+	m := []mutation{}
+	for _, base := range frameMutations() {
+		base := base
+		if strings.HasSuffix(base.kind, "+fix-hashes") {
+			continue
+		}
+		switch base.kind {
+		case "frame.Roots.drop-event", "frame.Roots.delete", "frame.Roots.event.Lamport", "frame.Events.event.Lamport",
+			"frame.PeerSets.delete", "frame.Events.drop", "frame.Events.duplicate":
+		default:
+			continue
+		}
+		m = append(m, mutation{"byzantine.quorum-signs." + base.kind, "byzantine", func(r *net.FastForwardResponse, c *mctx) bool {
+			if !base.fn(r, c) {
+				return false
+			}
+			fixFrameHash(r)
+			fixPeersHash(r)
+			// the first TrustCount+1 members of the frame's set whose keys are honest validators' keys
+			tc := trustCountOf(r.Frame.Peers)
+			ks := []*ecdsa.PrivateKey{}
+			for _, p := range r.Frame.Peers {
+				if o := c.h.w.Ord(p.PubKeyHex); o >= 0 && len(ks) < tc+1 {
+					ks = append(ks, c.h.w.Privs[o])
+				}
+			}
+			if len(ks) < tc+1 {
+				return false
+			}
+			signWith(r, ks)
+			return true
+		}})
+	}
+	return m
+}
+
 func controlMutations() []mutation {
 	return []mutation{
 		{"valid", "control", func(r *net.FastForwardResponse, c *mctx) bool { return true }},
@@ -759,6 +800,7 @@ func allMutations() []mutation {
 	m = append(m, sigMutations()...)
 	m = append(m, forgedMutations()...)
 	m = append(m, insiderMutations()...)
+	m = append(m, byzantineMutations()...)
 	return m
 }
 
